@@ -871,7 +871,7 @@ func (ip *Interp) execLoop(fr *frame, lp *loopInfo, pred *ssa.BasicBlock, st *St
 	}
 	bfr := fr.fork()
 	var car []carried
-	var ivs, affine []*ssa.Phi
+	var ivs, affine, sliceIVs []*ssa.Phi
 	nphi := 0
 	for _, in := range h.Instrs {
 		phi, ok := in.(*ssa.Phi)
@@ -905,6 +905,7 @@ func (ip *Interp) execLoop(fr *frame, lp *loopInfo, pred *ssa.BasicBlock, st *St
 		it, isTerm := init.(*Term)
 		// affine induction variable with a loop-invariant step: phi + s on every back edge
 		var step ssa.Value
+		stepNeg, stepSeen := false, false
 		if !isIV && !unchanged && isTerm && isIntLike(phi.Type()) {
 			okStep := true
 			for i, e := range phi.Edges {
@@ -912,7 +913,7 @@ func (ip *Interp) execLoop(fr *frame, lp *loopInfo, pred *ssa.BasicBlock, st *St
 					continue
 				}
 				bo, ok := e.(*ssa.BinOp)
-				if !ok || bo.Op != token.ADD {
+				if !ok || (bo.Op != token.ADD && bo.Op != token.SUB) {
 					okStep = false
 					break
 				}
@@ -920,11 +921,15 @@ func (ip *Interp) execLoop(fr *frame, lp *loopInfo, pred *ssa.BasicBlock, st *St
 				switch {
 				case bo.X == ssa.Value(phi):
 					s = bo.Y
-				case bo.Y == ssa.Value(phi):
+				case bo.Y == ssa.Value(phi) && bo.Op == token.ADD:
 					s = bo.X
 				default:
 					okStep = false
 				}
+				if okStep && stepSeen && (bo.Op == token.SUB) != stepNeg {
+					okStep = false
+				}
+				stepNeg, stepSeen = bo.Op == token.SUB, true
 				if !okStep {
 					break
 				}
@@ -942,6 +947,42 @@ func (ip *Interp) execLoop(fr *frame, lp *loopInfo, pred *ssa.BasicBlock, st *St
 				step = nil
 			}
 		}
+		// slice-walking: s = s[c:] on every back edge, with a loop-invariant constant step c >= 1
+		if sv0, isSl := init.(SliceV); isSl && !unchanged && sv0.Stor != nil {
+			var stepC int64 = -1
+			okS := true
+			for i, e := range phi.Edges {
+				if !lp.blocks[h.Preds[i]] {
+					continue
+				}
+				se, ok := e.(*ssa.Slice)
+				if !ok || se.X != ssa.Value(phi) || se.High != nil || se.Max != nil || se.Low == nil {
+					okS = false
+					break
+				}
+				lc, ok := se.Low.(*ssa.Const)
+				if !ok || lc.Value == nil || lc.Value.Kind() != constant.Int {
+					okS = false
+					break
+				}
+				v, exact := constant.Int64Val(lc.Value)
+				if !exact || v < 1 || (stepC >= 0 && stepC != v) {
+					okS = false
+					break
+				}
+				stepC = v
+			}
+			if okS && stepC >= 1 {
+				adv := mkBin(token.MUL, mkInt(stepC, intT), ctx.K, intT)
+				nv := sv0
+				nv.Off = mkBin(token.ADD, sv0.Off, adv, intT)
+				nv.Len = mkBin(token.SUB, sv0.Len, adv, intT)
+				nv.Cap = mkBin(token.SUB, sv0.Cap, adv, intT)
+				bfr.env[phi] = nv
+				sliceIVs = append(sliceIVs, phi)
+				continue
+			}
+		}
 		switch {
 		case unchanged:
 			bfr.env[phi] = init
@@ -950,7 +991,11 @@ func (ip *Interp) execLoop(fr *frame, lp *loopInfo, pred *ssa.BasicBlock, st *St
 			ivs = append(ivs, phi)
 		case step != nil:
 			if st, ok := ip.value(fr, step, st).(*Term); ok {
-				bfr.env[phi] = mkBin(token.ADD, it, mkBin(token.MUL, st, ctx.K, phi.Type()), phi.Type())
+				op := token.ADD
+				if stepNeg {
+					op = token.SUB
+				}
+				bfr.env[phi] = mkBin(op, it, mkBin(token.MUL, st, ctx.K, phi.Type()), phi.Type())
 				affine = append(affine, phi)
 			} else {
 				return fail("induction step of " + phi.Comment + " is not scalar")
@@ -963,7 +1008,7 @@ func (ip *Interp) execLoop(fr *frame, lp *loopInfo, pred *ssa.BasicBlock, st *St
 			return fail("loop-carried value of non-scalar type (" + phi.Comment + ")")
 		}
 	}
-	if len(ivs) == 0 && len(affine) == 0 {
+	if len(ivs) == 0 && len(affine) == 0 && len(sliceIVs) == 0 {
 		return fail("no induction variable")
 	}
 	// header body
@@ -1114,6 +1159,13 @@ func (ip *Interp) execLoop(fr *frame, lp *loopInfo, pred *ssa.BasicBlock, st *St
 			continue
 		}
 		xfr.env[phi] = at.subst(map[string]*Term{ctx.K.Name: trips})
+	}
+	for _, phi := range sliceIVs {
+		if sv, ok := bfr.env[phi].(SliceV); ok {
+			m := map[string]*Term{ctx.K.Name: trips}
+			sv.Off, sv.Len, sv.Cap = sv.Off.subst(m), sv.Len.subst(m), sv.Cap.subst(m)
+			xfr.env[phi] = sv
+		}
 	}
 	for _, cr := range car {
 		xfr.env[cr.phi] = ip.foldCarried(ctx, lp, cr, backs, nBodyFacts, post, fr)
@@ -1550,6 +1602,17 @@ func (ip *Interp) convert(fr *frame, dst ssa.Value, src ssa.Value, st *State) {
 	if isIntLike(t.Typ) && isIntLike(dst.Type()) && !isTypeParam(t.Typ) && !isTypeParam(dst.Type()) && !t.IsConst() {
 		from, to := kindOf(t.Typ), kindOf(dst.Type())
 		if from.OK && to.OK && !(from.Signed == to.Signed && to.Bits >= from.Bits) && !(!from.Signed && to.Signed && to.Bits > from.Bits) {
+			// the range-test idiom uint(x) < c: a signed value reinterpreted as unsigned of the same width and used
+			// only in comparisons is kept as an opaque value u (with u <= MaxSigned implying u = x >= 0, see
+			// Facts.ge0Facts) instead of being erased, unless x >= 0 is already known
+			probe := &Effect{Idx: t, Typ: dst.Type(), Facts: st.facts}
+			if ok, _, _ := narrowInRange(probe); !ok && from.Signed && !to.Signed && to.Bits >= from.Bits && onlyCompared(dst) &&
+				!t.contains(func(x *Term) bool { return x.Op == OpElem }) {
+				r = &Term{Op: OpCall, Name: reinterpretPrefix + typeKey(dst.Type()) + ">", Typ: dst.Type(), Args: []*Term{t}, Pos: dst.Pos()}
+				st.addEffect(&Effect{Kind: ENarrow, Pos: dst.Pos(), Fn: fr.fn, Stack: fr.stack, Sites: fr.sites, Val: r, Idx: t, Typ: dst.Type(), Note: "reinterpreting (compared only) " + typeKey(dst.Type()) + " <- " + typeKey(t.Typ)})
+				fr.env[dst] = r
+				return
+			}
 			st.addEffect(&Effect{Kind: ENarrow, Pos: dst.Pos(), Fn: fr.fn, Stack: fr.stack, Sites: fr.sites, Val: r, Idx: t, Typ: dst.Type(), Note: "narrowing " + typeKey(dst.Type()) + " <- " + typeKey(t.Typ)})
 		}
 	}
@@ -1585,7 +1648,7 @@ func (ip *Interp) sliceExpr(fr *frame, x *ssa.Slice, st *State) {
 		fr.env[x] = UnknownV{Why: "slice", Typ: x.Type()}
 		return
 	}
-	if x.High == nil || sv.Stale == "" {
+	if (x.High == nil && !sv.LenFresh) || sv.Stale == "" {
 		ip.staleUse(sv, "slice expression", st, fr, x.Pos())
 	}
 	lo := mkInt(0, intT)
@@ -1615,7 +1678,7 @@ func (ip *Interp) sliceExpr(fr *frame, x *ssa.Slice, st *State) {
 	if sv.Stale != "" {
 		// an explicit high bound does not depend on the stale length; the
 		// capacity of the result still does
-		r.Stale, r.LenFresh = sv.Stale, x.High != nil
+		r.Stale, r.LenFresh = sv.Stale, x.High != nil || sv.LenFresh
 	}
 	fr.env[x] = r
 }
@@ -1996,6 +2059,11 @@ func (ip *Interp) external(fr *frame, callee *ssa.Function, args []Val, resT typ
 			r.Pos = pos
 			return r
 		}
+	case "(time.Duration).Nanoseconds":
+		// func (d Duration) Nanoseconds() int64 { return int64(d) }
+		if t, ok := args[0].(*Term); ok {
+			return convTerm(t, resT, pos)
+		}
 	case "reflect.ValueOf":
 		if iv, ok := args[0].(IfaceV); ok {
 			return ReflectV{Of: iv.Dyn}
@@ -2268,6 +2336,30 @@ func onlyCalled(v ssa.Value, depth int) bool {
 			if i >= len(callee.Params) || !onlyCalled(callee.Params[i], depth+1) {
 				return false
 			}
+		}
+	}
+	return true
+}
+
+const reinterpretPrefix = "reinterpret<"
+
+// onlyCompared: every use of the value is an operand of a comparison.
+func onlyCompared(v ssa.Value) bool {
+	refs := v.Referrers()
+	if refs == nil || len(*refs) == 0 {
+		return false
+	}
+	for _, r := range *refs {
+		switch y := r.(type) {
+		case *ssa.BinOp:
+			switch y.Op {
+			case token.LSS, token.LEQ, token.GTR, token.GEQ, token.EQL, token.NEQ:
+			default:
+				return false
+			}
+		case *ssa.DebugRef:
+		default:
+			return false
 		}
 	}
 	return true
